@@ -47,8 +47,9 @@
 (*  R6 join(other, dim): concatenation of the node arrays along dim (an    *)
 (*     existing dimension: labels appended; a new one: one entry per       *)
 (*     action, order of dimensions free).                                  *)
-(*  R7 action (op) action is element-wise BY POSITION (join is called with *)
-(*     match_coord_values=True), the result keeps the receiver's labels.   *)
+(*  R7 action (op) action is element-wise BY POSITION along every dimension *)
+(*     (join is called with match_coord_values=True), dimensions matched   *)
+(*     by NAME; the result keeps the receiver's dimensions and labels.     *)
 (*  R8 operations keep the untouched dimensions in their order.            *)
 (***************************************************************************)
 EXTENDS Arrays
@@ -114,7 +115,10 @@ Applicable(o, A, A2) ==
          /\ (o.op = "joinc" => ~HasDim(A, o.dim))
          \* along an existing dimension only when it certainly carries a coordinate variable (labels other than 0..n-1)
          /\ (HasDim(A, o.dim) => A.coords[Pos(A, o.dim)] # Range0(Len(A.coords[Pos(A, o.dim)])))
-    [] o.op \in ActionOps -> A2.dims = A.dims /\ NShape(A2) = NShape(A) /\ \A k \in DOMAIN A.val : A2.val[k].shape = A.val[k].shape
+    \* the same dimensions (in any order), the same sizes per dimension
+    [] o.op \in ActionOps -> /\ Len(A2.dims) = Len(A.dims)
+                             /\ \A i \in DOMAIN A.dims : HasDim(A2, A.dims[i]) /\ Len(A2.coords[Pos(A2, A.dims[i])]) = Len(A.coords[i])
+                             /\ \A k \in DOMAIN A.val : A2.val[k].shape = A.val[1].shape /\ A.val[k].shape = A.val[1].shape
     [] o.op = "transform" -> ~HasDim(A, o.dim) /\ o.axis <= Len(A.dims)
     [] OTHER -> FALSE
 
@@ -131,7 +135,10 @@ Expect(o, A, A2) ==
     [] o.op = "map" -> [A EXCEPT !.val = [k \in DOMAIN A.val |-> Binary("multiply", A.val[k], Scalar(QI(o.n)))]]
     [] o.op = "mapeach" -> [A EXCEPT !.val = [k \in DOMAIN A.val |-> Binary("add", A.val[k], Scalar(QI(k - 1)))]]
     [] o.op \in ScalarOps -> [A EXCEPT !.val = [k \in DOMAIN A.val |-> Binary(BinName(o.op), A.val[k], Scalar(QI(o.n)))]]
-    [] o.op \in ActionOps -> [A EXCEPT !.val = [k \in DOMAIN A.val |-> Binary(BinName(o.op), A.val[k], A2.val[k])]]   \* R7
+    [] o.op \in ActionOps ->                                                                               \* R7
+         [A EXCEPT !.val = [k \in DOMAIN A.val |->
+             LET idx == Unflat(k - 1, NShape(A))
+             IN Binary(BinName(o.op), A.val[k], NodeAt(A2, [j \in DOMAIN A2.dims |-> idx[Pos(A, A2.dims[j])]]))]]
     [] o.op \in {"expand", "expandsel"} ->                                                                 \* R3
          LET idxs == IF o.op = "expandsel" THEN o.ivals ELSE [j \in 1..o.n |-> j - 1]
              size == Len(idxs)
@@ -258,6 +265,15 @@ OtherLike(D, kind, dim, shift) ==
 BatchSizes(n, lvl) == CASE lvl = "full" -> 0..(n + 1) [] lvl = "mid" -> {0, 2} [] OTHER -> {0}
 Keeps(lvl) == IF lvl = "lite" THEN {FALSE} ELSE BOOLEAN
 RedFns(lvl) == CASE lvl = "full" -> {"sum", "prod", "min", "max", "mean", "std"} [] lvl = "mid" -> {"sum", "max", "mean", "std"} [] OTHER -> {"sum"}
+\* lvl "bcast": a 2-d receiver broadcast against an action that has the receiver's dimensions in the OPPOSITE order (alone,
+\* or with a new dimension before / after them): xarray hands back a transposed view of the node array, and whatever
+\* is applied next must still address every node by its coordinates
+RevLike(D) == LET L == OtherLike(D, 1, "", 0) IN [L EXCEPT !.dims = Reverse(@), !.shape = Reverse(@), !.coords = Reverse(@)]
+BcastOthers(D) == IF Len(D.dims) # 2 \/ HasDim(D, "w") \/ ~Known(D) THEN {} ELSE
+  LET R == RevLike(D) IN
+  {R, [R EXCEPT !.dims = <<"w">> \o @, !.shape = <<2>> \o @, !.coords = <<<<5, 6>>>> \o @],
+      [R EXCEPT !.dims = @ \o <<"w">>, !.shape = @ \o <<2>>, !.coords = @ \o <<<<5, 6>>>>]}
+BcastOps(D) == {O("broadcast", "", 0, FALSE, 0, 0, <<>>, <<>>, b) : b \in BcastOthers(D)}
 \* lvl "wide": dimensions of 11..13 nodes, so that ONE node takes 11 or more inputs ("input10" sorts before "input2"):
 \* the order-sensitive reductions un-batched (0, n, n+1) and batched with 11 per batch; sum as the commutative witness
 WideDims(D) == {D.dims[i] : i \in {j \in DOMAIN D.dims : Len(D.coords[j]) >= 11}}
@@ -278,7 +294,8 @@ OpsFor(D, lvl, nc) ==
       size(d) == Len(D.coords[Pos(D, d)])
       label(d, j) == StrToInt(D.coords[Pos(D, d)][j])
       red(ops, lv) == UNION {{O(f, d, bs, kp, 0, 0, <<>>, <<>>, NoSrc) : <<f, bs, kp>> \in ops \X BatchSizes(size(d), lv) \X Keeps(lv)} : d \in BigDims(D)}
-  IN IF ~SameArrShapes(D) THEN {} ELSE IF lvl = "wide" THEN WideOps(D) ELSE
+  IN IF ~SameArrShapes(D) THEN {} ELSE IF lvl = "wide" THEN WideOps(D) ELSE IF lvl = "bcast" THEN BcastOps(D)
+     ELSE IF lvl = "bcast1" THEN {O("broadcast", "", 0, FALSE, 0, 0, <<>>, <<>>, RevLike(D))} ELSE
        red(RedFns(lvl), lvl)
   \cup (IF lite THEN {O("sum", d, 0, TRUE, 0, 0, <<>>, <<>>, NoSrc) : d \in BigDims(D)} ELSE {})
   \cup (IF full THEN red({"rmean", "rfirst"}, "full") ELSE {})
@@ -315,6 +332,8 @@ OpsFor(D, lvl, nc) ==
   \cup (IF lite \/ nc \/ ~Known(D) \/ nd = 0 \/ ish # <<3>> THEN {} ELSE
           {O(op, "", 0, FALSE, 0, 0, <<>>, <<>>, OtherLike(D, 1, D.dims[1], sh)) : <<op, sh>> \in
              (IF full THEN ActionOps \X {0, 1} ELSE {<<"add_a", 1>>, <<"divide_a", 0>>})}
+     \* the other action with the dimensions in the opposite order
+     \cup (IF full /\ nd = 2 THEN {O(op, "", 0, FALSE, 0, 0, <<>>, <<>>, RevLike(D)) : op \in {"subtract_a", "divide_a"}} \cup BcastOps(D) ELSE {})
      \cup {O("join", d, 0, FALSE, 0, 0, <<>>, <<>>, OtherLike(D, 1, d, 100)) : d \in {e \in BigDims(D) : D.coords[Pos(D, e)] # Range0(size(e))}}
      \cup (IF HasDim(D, "n") THEN {} ELSE {O("join", "n", 0, FALSE, 0, 0, <<>>, <<>>, OtherLike(D, 1, "", 0)),
                                             O("joinc", "n", 0, FALSE, 0, 0, <<>>, <<7, 8>>, OtherLike(D, 1, "", 0))})
@@ -346,12 +365,16 @@ Extend(D, lvls, nc, sofar) ==
               : o \in OpsFor(D, Head(lvls), nc)}
 Progs(srcs, lvls) == UNION {{[src |-> s, ops |-> p] : p \in Extend(SrcDen(s), lvls, s.nocoords, <<>>)} : s \in srcs}
 \* depth 1: everything; deeper: thinned inner parameters (quick: lite.mid; thorough: lite.full, mid.mid, lite.lite.mid)
+BcastSources == {s \in Sources : s.shape = <<2, 3>> /\ ~s.nocoords} \cup (IF Tier = "quick" THEN {} ELSE {Src(<<"x", "y">>, <<3, 2>>, FALSE)})
 WideSources == {Src(<<"x">>, <<11>>, FALSE), SrcO(<<"x">>, <<12>>, FALSE, "shuf"), Src(<<"x">>, <<13>>, TRUE)}
                \cup (IF Tier = "quick" THEN {} ELSE {SrcO(<<"x">>, <<13>>, FALSE, "desc"), Src(<<"x", "y">>, <<2, 11>>, FALSE),
                                                      Src(<<"x", "y">>, <<12, 2>>, TRUE)})
 Programs(tier) ==
      Progs(Sources, <<"full">>)
   \cup Progs(WideSources, <<"wide">>)
+  \cup (IF tier = "quick" THEN Progs({s \in BcastSources : s.ord = "asc"}, <<"bcast", "mid">>)
+                             \cup Progs({s \in BcastSources : s.ord = "asc"}, <<"bcast1", "lite", "lite">>)
+        ELSE Progs(BcastSources, <<"bcast", "mid">>) \cup Progs(BcastSources, <<"bcast", "lite", "lite">>))
   \cup (IF tier = "quick" THEN Progs(DeepSources, <<"lite", "mid">>)
         ELSE Progs(DeepSources, <<"lite", "full">>) \cup Progs({s \in DeepSources : ~s.nocoords}, <<"mid", "mid">>)
              \cup Progs(DeepSources, <<"lite", "lite", "mid">>))
